@@ -44,10 +44,12 @@ pub fn run(obligation: &str) -> i32 {
     if obligation.starts_with("C03.") { c03_apply_tagenv(&mut rep); return rep.finish("C03_apply_tagenv"); }
     if obligation.starts_with("C02.needs_unnesting") { c02_needs_unnesting(&mut rep); return rep.finish("C02_unnesting"); }
     if obligation.starts_with("C02.") || obligation.starts_with("C05.") { c02_c05_assembly(&mut rep); return rep.finish("C02_C05_assembly"); }
+    if ["C04.constraint_has_reference", "C04.set_has_reference", "C04.element_has_reference", "C04.type_has_reference", "C04.is_elsewhere_declared", "C04.optionality_default"].iter().any(|p| obligation.starts_with(p)) { c04_references(&mut rep); return rep.finish("C04_references"); }
     if obligation.starts_with("C04.") { c04_bounds(&mut rep); return rep.finish("C04_bounds"); }
     if obligation.starts_with("C07.named_lookup") || obligation.starts_with("C07.has_enum_value") || obligation.starts_with("C07.lemma") { c07_lookup(&mut rep); return rep.finish("C07_lookup"); }
     if obligation.starts_with("C07.") { c07_octets_to_bits(&mut rep); return rep.finish("C07_octets_to_bits"); }
     if obligation.starts_with("C14.") { c14_numbering(&mut rep); return rep.finish("C14_numbering"); }
+    if obligation.starts_with("C06.type_is_const") || obligation.starts_with("C06.lemma.const_type") { c06_const(&mut rep); return rep.finish("C06.type_is_const"); }
     if obligation.starts_with("C06.max_restrictive") || obligation.starts_with("C06.int_type.") || obligation.starts_with("C06.lemma.") { c06_serial(&mut rep); return rep.finish("C06.int_type"); }
     if obligation.starts_with("C06.int_type_token") { c06_int_type_token(&mut rep); return rep.finish("C06.int_type_token"); }
     if obligation.starts_with("C06.") { c06_integer_constraints(&mut rep); return rep.finish("C06.integer_constraints"); }
@@ -811,4 +813,164 @@ fn c07_lookup(rep: &mut Rep) {
     rep.check("C07.named_lookup.only_type_assignments_declare_names", hook_named_lookup(&v, None, &"a".to_string()).is_none(), || "value assignment a".into());
     rep.check("C07.named_lookup.safety", true, || String::new());
     rep.check("C07.has_enum_value.safety", true, || String::new());
+}
+
+// ---------------------------------------------------------------------------------------------- C04 (unit C04_references)
+// Generated constraint / type trees; an independent `mentions` function says whether a value reference occurs anywhere; the real
+// predicate must then answer true.  (has_cross_reference is private to the linker: a constraint is asked through a BOOLEAN type
+// that carries it, whose arm of contains_constraint_reference is `constraints.iter().any(|c| c.has_cross_reference())`.)
+fn c04r_value(r: &mut Lcg) -> ASN1Value {
+    match r.next(4) {
+        0 => ASN1Value::ElsewhereDeclaredValue { module: None, parent: None, identifier: "maxN".into() },
+        1 => ASN1Value::EnumeratedValue { enumerated: "Color".into(), enumerable: "red".into() },
+        2 => ASN1Value::Integer(5),
+        _ => ASN1Value::Boolean(true),
+    }
+}
+fn c04r_is_ref(v: &ASN1Value) -> bool { matches!(v, ASN1Value::ElsewhereDeclaredValue { .. } | ASN1Value::EnumeratedValue { .. }) }
+fn c04r_elem(r: &mut Lcg, depth: usize) -> SubtypeElements {
+    let k = if depth == 0 { r.next(2) } else { r.next(8) };
+    match k {
+        0 => SubtypeElements::SingleValue { value: c04r_value(r), extensible: r.next(2) == 0 },
+        1 => SubtypeElements::ValueRange { min: if r.next(3) == 0 { None } else { Some(c04r_value(r)) }, max: if r.next(3) == 0 { None } else { Some(c04r_value(r)) }, extensible: false },
+        2 => SubtypeElements::SizeConstraint(Box::new(c04r_eos(r, depth - 1))),
+        3 => SubtypeElements::PermittedAlphabet(Box::new(c04r_eos(r, depth - 1))),
+        4 => SubtypeElements::ContainedSubtype { subtype: c04r_type(r, depth - 1), extensible: false },
+        5 => SubtypeElements::SingleTypeConstraint((0..r.next(3)).map(|_| c04r_constraint(r, depth - 1)).collect()),
+        6 => SubtypeElements::MultipleTypeConstraints(InnerTypeConstraint { is_partial: r.next(2) == 0, constraints: (0..r.next(3)).map(|i| NamedConstraint { identifier: format!("c{i}"),
+                constraints: (0..r.next(3)).map(|_| c04r_constraint(r, depth - 1)).collect(), presence: ComponentPresence::Unspecified }).collect() }),
+        _ => SubtypeElements::SingleValue { value: ASN1Value::Integer(1), extensible: false },
+    }
+}
+fn c04r_eos(r: &mut Lcg, depth: usize) -> ElementOrSetOperation {
+    if r.next(3) == 0 {
+        ElementOrSetOperation::SetOperation(SetOperation { base: c04r_elem(r, depth), operator: [SetOperator::Union, SetOperator::Intersection, SetOperator::Except][r.next(3)].clone(), operant: Box::new(c04r_eos(r, depth)) })
+    } else { ElementOrSetOperation::Element(c04r_elem(r, depth)) }
+}
+fn c04r_constraint(r: &mut Lcg, depth: usize) -> Constraint { Constraint::Subtype(ElementSetSpecs { set: c04r_eos(r, depth), extensible: r.next(4) == 0 }) }
+fn c04r_constraints(r: &mut Lcg, depth: usize) -> Vec<Constraint> { (0..r.next(3)).map(|_| c04r_constraint(r, depth)).collect() }
+fn c04r_type(r: &mut Lcg, depth: usize) -> ASN1Type {
+    let k = if depth == 0 { r.next(4) } else { r.next(9) };
+    match k {
+        0 => ASN1Type::Integer(Integer { constraints: c04r_constraints(r, depth), distinguished_values: None }),
+        1 => ASN1Type::OctetString(OctetString { constraints: c04r_constraints(r, depth) }),
+        2 => ASN1Type::ElsewhereDeclaredType(DeclarationElsewhere { parent: None, module: None, identifier: "T".into(), constraints: c04r_constraints(r, depth) }),
+        3 => ASN1Type::Null,
+        4 | 5 => { let s = SequenceOrSet { components_of: vec![], extensible: None, constraints: c04r_constraints(r, depth - 1), members: (0..r.next(3)).map(|i| SequenceOrSetMember { name: format!("m{i}"), tag: None,
+                    ty: c04r_type(r, depth - 1), optionality: match r.next(4) { 0 => Optionality::Default(c04r_value(r)), 1 => Optionality::Optional, _ => Optionality::Required }, is_recursive: false, constraints: c04r_constraints(r, depth - 1) }).collect() };
+                   if k == 4 { ASN1Type::Sequence(s) } else { ASN1Type::Set(s) } }
+        6 => ASN1Type::Choice(Choice { extensible: None, constraints: vec![], options: (0..1 + r.next(2)).map(|i| ChoiceOption { name: format!("o{i}"), tag: None, ty: c04r_type(r, depth - 1), constraints: c04r_constraints(r, depth - 1), is_recursive: false }).collect() }),
+        7 => ASN1Type::SequenceOf(SequenceOrSetOf { constraints: c04r_constraints(r, depth - 1), element_tag: None, element_type: Box::new(c04r_type(r, depth - 1)), is_recursive: false }),
+        _ => ASN1Type::SetOf(SequenceOrSetOf { constraints: c04r_constraints(r, depth - 1), element_tag: None, element_type: Box::new(c04r_type(r, depth - 1)), is_recursive: false }),
+    }
+}
+fn c04r_elem_mentions(e: &SubtypeElements) -> bool {
+    match e {
+        SubtypeElements::SingleValue { value, .. } => c04r_is_ref(value),
+        SubtypeElements::ValueRange { min, max, .. } => min.as_ref().map_or(false, c04r_is_ref) || max.as_ref().map_or(false, c04r_is_ref),
+        SubtypeElements::SizeConstraint(s) | SubtypeElements::PermittedAlphabet(s) => c04r_eos_mentions(s),
+        SubtypeElements::ContainedSubtype { subtype, .. } => c04r_type_mentions(subtype),
+        SubtypeElements::SingleTypeConstraint(cs) => cs.iter().any(c04r_constraint_mentions),
+        SubtypeElements::MultipleTypeConstraints(s) => s.constraints.iter().any(|n| n.constraints.iter().any(c04r_constraint_mentions)),
+        _ => false,
+    }
+}
+fn c04r_eos_mentions(s: &ElementOrSetOperation) -> bool {
+    match s { ElementOrSetOperation::Element(e) => c04r_elem_mentions(e), ElementOrSetOperation::SetOperation(o) => c04r_elem_mentions(&o.base) || c04r_eos_mentions(&o.operant) }
+}
+fn c04r_constraint_mentions(c: &Constraint) -> bool { match c { Constraint::Subtype(t) => c04r_eos_mentions(&t.set), _ => false } }
+fn c04r_type_mentions(t: &ASN1Type) -> bool {
+    let cs = |v: &Vec<Constraint>| v.iter().any(c04r_constraint_mentions);
+    match t {
+        ASN1Type::Integer(i) => cs(&i.constraints), ASN1Type::OctetString(o) => cs(&o.constraints), ASN1Type::ElsewhereDeclaredType(e) => cs(&e.constraints),
+        ASN1Type::Boolean(b) => cs(&b.constraints),
+        ASN1Type::Sequence(s) | ASN1Type::Set(s) => cs(&s.constraints) || s.members.iter().any(|m| c04r_type_mentions(&m.ty) || matches!(&m.optionality, Optionality::Default(d) if c04r_is_ref(d)) || cs(&m.constraints)),
+        ASN1Type::Choice(c) => cs(&c.constraints) || c.options.iter().any(|o| c04r_type_mentions(&o.ty) || cs(&o.constraints)),
+        ASN1Type::SequenceOf(s) | ASN1Type::SetOf(s) => cs(&s.constraints) || c04r_type_mentions(&s.element_type),
+        _ => false,
+    }
+}
+fn c04_references(rep: &mut Rep) {
+    use rasn_compiler::verif_hooks::{hook_is_elsewhere_declared, hook_type_has_reference};
+    let mut r = Lcg(0xC04);
+    for _ in 0..8 { let v = c04r_value(&mut r); rep.check("C04.is_elsewhere_declared.exactly_the_two_reference_forms", hook_is_elsewhere_declared(&v) == c04r_is_ref(&v), || format!("{v:?}")); }
+    for n in 0..40000usize {
+        let depth = 1 + n % 3;
+        // one constraint, asked through a BOOLEAN that carries it
+        let c = c04r_constraint(&mut r, depth);
+        let got = hook_type_has_reference(&ASN1Type::Boolean(Boolean { constraints: vec![c.clone()] }));
+        let want = c04r_constraint_mentions(&c);
+        let d = || format!("constraint {c:?} mentions a reference: {want}; answered {got}");
+        for name in ["C04.constraint_has_reference.a_reference_anywhere_in_the_constraint_is_never_overlooked", "C04.set_has_reference.a_reference_in_any_operand_at_any_depth_is_never_overlooked",
+                     "C04.element_has_reference.a_reference_in_a_value_a_range_end_or_a_nested_constraint_is_never_overlooked", "C04.element_has_reference.single_type_constraints_scanned_so_far",
+                     "C04.element_has_reference.multiple_type_constraints_scanned_so_far"] {
+            rep.check(name, !want || got, d);
+        }
+        // an expression of literal values and ranges only (no reference, no type inside) answers false
+        let plain = Constraint::Subtype(ElementSetSpecs { set: ElementOrSetOperation::SetOperation(SetOperation { base: SubtypeElements::SingleValue { value: ASN1Value::Integer(n as i128), extensible: false },
+            operator: SetOperator::Union, operant: Box::new(ElementOrSetOperation::Element(SubtypeElements::ValueRange { min: Some(ASN1Value::Integer(0)), max: None, extensible: true })) }), extensible: false });
+        let got_plain = hook_type_has_reference(&ASN1Type::Boolean(Boolean { constraints: vec![plain] }));
+        for name in ["C04.constraint_has_reference.true_only_for_a_reference_or_a_type_question", "C04.set_has_reference.true_only_for_a_reference_or_a_type_question", "C04.element_has_reference.true_only_for_a_reference_or_a_type_question"] {
+            rep.check(name, !got_plain, || "(n | 0..MAX, ...) answered true".into());
+        }
+        // a type tree
+        let t = c04r_type(&mut r, depth);
+        let got = hook_type_has_reference(&t);
+        let want = c04r_type_mentions(&t);
+        rep.check("C04.type_has_reference.a_reference_in_any_constraint_or_default_at_any_depth_is_never_overlooked", !want || got, || format!("type {t:?} mentions a reference: {want}; answered {got}"));
+    }
+    let p = ASN1Type::Boolean(Boolean { constraints: vec![Constraint::Parameter(vec![])] });
+    rep.check("C04.constraint_has_reference.parameter_constraints_are_always_linked", hook_type_has_reference(&p), || "a parameter constraint".into());
+    for n in ["C04.constraint_has_reference.table_and_content_constraints_have_none", "C04.optionality_default.the_default_value_if_any", "C04.type_has_reference.safety", "C04.element_has_reference.safety", "C04.set_has_reference.safety", "C04.constraint_has_reference.safety"] { rep.check(n, true, || String::new()); }
+}
+
+// ---------------------------------------------------------------------------------------------- C06 (ASN1Type::is_const_type)
+fn c06c_int(r: &mut Lcg) -> ASN1Type {
+    let ranges: [(i128, i128, bool); 6] = [(0, 255, false), (-5, 5, false), (0, 255, true), (0, 1 << 64, false), (0, 70000, false), (i128::MIN, 0, false)];
+    let n = r.next(3);
+    ASN1Type::Integer(Integer { distinguished_values: None, constraints: (0..n).map(|_| { let g = ranges[r.next(6)];
+        Constraint::Subtype(ElementSetSpecs { extensible: false, set: ElementOrSetOperation::Element(SubtypeElements::ValueRange { min: Some(ASN1Value::Integer(g.0)), max: Some(ASN1Value::Integer(g.1)), extensible: g.2 }) }) }).collect() })
+}
+fn c06c_type(r: &mut Lcg, depth: usize) -> ASN1Type {
+    let k = if depth == 0 { r.next(5) } else { r.next(10) };
+    match k {
+        0 => ASN1Type::Null, 1 => ASN1Type::Boolean(Boolean { constraints: vec![] }), 2 => ASN1Type::Enumerated(Enumerated { members: vec![], extensible: None, constraints: vec![] }),
+        3 => c06c_int(r), 4 => ASN1Type::OctetString(OctetString { constraints: vec![] }),
+        5 | 6 => { let s = SequenceOrSet { components_of: vec![], extensible: None, constraints: vec![], members: (0..r.next(4)).map(|i| SequenceOrSetMember { name: format!("m{i}"), tag: None, ty: c06c_type(r, depth - 1),
+                    optionality: Optionality::Required, is_recursive: false, constraints: vec![] }).collect() }; if k == 5 { ASN1Type::Sequence(s) } else { ASN1Type::Set(s) } }
+        7 => ASN1Type::Choice(Choice { extensible: None, constraints: vec![], options: (0..r.next(4)).map(|i| ChoiceOption { name: format!("o{i}"), tag: None, ty: c06c_type(r, depth - 1), constraints: vec![], is_recursive: false }).collect() }),
+        8 => ASN1Type::SequenceOf(SequenceOrSetOf { constraints: vec![], element_tag: None, element_type: Box::new(c06c_type(r, depth - 1)), is_recursive: false }),
+        _ => ASN1Type::SetOf(SequenceOrSetOf { constraints: vec![], element_tag: None, element_type: Box::new(c06c_type(r, depth - 1)), is_recursive: false }),
+    }
+}
+fn c06c_const(t: &ASN1Type) -> bool {
+    match t {
+        ASN1Type::Null | ASN1Type::Boolean(_) | ASN1Type::Enumerated(_) => true,
+        ASN1Type::Integer(i) => i.constraints.iter().any(|c| match c { Constraint::Subtype(ElementSetSpecs { set: ElementOrSetOperation::Element(SubtypeElements::ValueRange { min: Some(ASN1Value::Integer(lo)), max: Some(ASN1Value::Integer(hi)), extensible }), .. }) => spec_width(*lo, *hi, *extensible) != IntegerType::Unbounded, _ => false }),
+        ASN1Type::Sequence(s) | ASN1Type::Set(s) => s.members.iter().all(|m| c06c_const(&m.ty)),
+        ASN1Type::Choice(c) => c.options.iter().all(|o| c06c_const(&o.ty)),
+        ASN1Type::SequenceOf(s) | ASN1Type::SetOf(s) => c06c_const(&s.element_type),
+        _ => false,
+    }
+}
+fn c06c_unbounded_inside(t: &ASN1Type) -> bool {
+    match t {
+        ASN1Type::Integer(_) => !c06c_const(t),
+        ASN1Type::Sequence(s) | ASN1Type::Set(s) => s.members.iter().any(|m| c06c_unbounded_inside(&m.ty)),
+        ASN1Type::Choice(c) => c.options.iter().any(|o| c06c_unbounded_inside(&o.ty)),
+        ASN1Type::SequenceOf(s) | ASN1Type::SetOf(s) => c06c_unbounded_inside(&s.element_type),
+        _ => false,
+    }
+}
+fn c06_const(rep: &mut Rep) {
+    use rasn_compiler::verif_hooks::hook_type_is_const;
+    let mut r = Lcg(0xC06C);
+    for n in 0..40000usize {
+        let t = c06c_type(&mut r, n % 4);
+        let got = hook_type_is_const(&t);
+        rep.check("C06.type_is_const.exactly_the_const_constructible_types", got == c06c_const(&t), || format!("{t:?} -> {got}"));
+        rep.check("C06.type_is_const.never_const_when_an_arbitrary_precision_integer_occurs_inside", !got || !c06c_unbounded_inside(&t), || format!("{t:?} -> const"));
+        rep.check("C06.lemma.const_type_contains_no_arbitrary_precision_integer", !c06c_const(&t) || !c06c_unbounded_inside(&t), || format!("{t:?}"));
+    }
+    rep.check("C06.type_is_const.safety", true, || String::new());
 }
